@@ -3,6 +3,7 @@
 //!   request <TAB> implementation <TAB> oracle <TAB> in|out
 mod util;
 mod c02;
+mod c08;
 
 fn main() {
     std::panic::set_hook(Box::new(|_| {}));
@@ -16,6 +17,7 @@ fn main() {
     let mut out = util::Out::new();
     match fam {
         "c02" => c02::run(tier, seed, &mut out),
+        "c08" => c08::run(tier, seed, &mut out),
         _ => {
             eprintln!("unknown family {}", fam);
             std::process::exit(2);
